@@ -23,7 +23,7 @@ for i in sorted(os.listdir(os.path.join(VERIF, "benign"))):
             if line:
                 title = line[:150]
                 break
-    fe = first.get(i, first.get(i.split("-")[0] + "-*", "n/a"))
+    fe = first.get(i, "n/a")
     rows.append(f"| {i} | {title} | {fe} | {now.get(i, 'n/a')[:120]} |")
 with open(os.path.join(VERIF, "benign", "INDEX.md"), "w") as f:
     f.write("# Behaviour-preserving refactorings (must be reported by no check)\n\nEach directory holds patch.diff (applies to /repo HEAD), equiv.py (the author's behavioural equivalence check: identical output before/after) and notes.md.\n"
